@@ -44,7 +44,73 @@ def binop_table(tree):
     return "\n".join(out)
 
 
-TABLES = {"BinOpTable": binop_table}
+def dict_sites(tree):
+    """every call site of dict.Keys/Values/KVs in fc/*.fo as file:function:enumerator, and every other
+    source of run-to-run variation in the hand-written Go of fc (range over a map, time, rand, %p)"""
+    import glob
+    sites = []
+    for f in sorted(glob.glob(os.path.join(tree, "fc", "*.fo"))):
+        cur = "?"
+        in_block = False
+        for line in open(f, errors="replace"):
+            code = line
+            if in_block:
+                if "*/" in code:
+                    code = code.split("*/", 1)[1]
+                    in_block = False
+                else:
+                    continue
+            if "/*" in code and "*/" not in code.split("/*", 1)[1]:
+                code = code.split("/*", 1)[0]
+                in_block = True
+            code = code.split("//")[0]
+            m = re.match(r"let\s+(\w+)", code)
+            if m:
+                cur = m.group(1)
+            for e in re.findall(r"dict\.(Keys|Values|KVs)\b", code):
+                s = "%s:%s:%s" % (os.path.basename(f), cur, e)
+                if s not in sites:
+                    sites.append(s)
+    other = []
+    for f in sorted(glob.glob(os.path.join(tree, "fc", "*.go"))):
+        b = os.path.basename(f)
+        if b.startswith("gen_") or b.endswith("_test.go") or b.startswith("zz_verif"):
+            continue
+        src = open(f, errors="replace").read()
+        for m in re.finditer(r"range\s+([A-Za-z_][\w.]*)", src):
+            name = m.group(1)
+            if re.search(r"\b%s\s*(=|:=)\s*map\[" % re.escape(name.split(".")[-1]), src) or name.endswith("Fdict") or name.endswith("Map"):
+                other.append("%s:range-over-map:%s" % (b, name))
+        for pat in (r"\btime\.", r"\brand\.", r"%p"):
+            if re.search(pat, src):
+                other.append("%s:uses:%s" % (b, pat))
+    for f in sorted(glob.glob(os.path.join(tree, "fc", "*.fo"))):
+        src = open(f, errors="replace").read()
+        for pat in (r"\btime\.", r"\brand\.", r"%p"):
+            if re.search(pat, src):
+                other.append("%s:uses:%s" % (os.path.basename(f), pat))
+    out = ["(* generated from fc/*.fo and fc/*.go by bin/gen_tables.py; do not edit *)",
+           "From Coq Require Import List String Bool.",
+           "From FoVerif Require Import Driver.Order.",
+           "Import ListNotations.",
+           "Open Scope string_scope.",
+           "Definition extracted_sites : list string :=",
+           "  [" + ";\n   ".join(coq_str(s) for s in sites) + "].",
+           "Definition other_order_sources : list string :=",
+           "  [" + ";\n   ".join(coq_str(s) for s in other) + "].",
+           "Lemma every_site_is_modelled :",
+           "  forallb (fun s => existsb (String.eqb s) modelled_sites) extracted_sites = true.",
+           "Proof. vm_compute. reflexivity. Qed.",
+           "Lemma every_modelled_site_exists :",
+           "  forallb (fun s => existsb (String.eqb s) extracted_sites) modelled_sites = true.",
+           "Proof. vm_compute. reflexivity. Qed.",
+           "Lemma no_other_order_source : other_order_sources = [].",
+           "Proof. reflexivity. Qed.",
+           ""]
+    return "\n".join(out)
+
+
+TABLES = {"BinOpTable": binop_table, "DictSites": dict_sites}
 
 if __name__ == "__main__":
     name, tree, outdir = sys.argv[1:4]
